@@ -18,6 +18,7 @@ exactly the residual conjunct.  Set-valued operands are compared by Boolean equi
 Also: a panic audit of the predicate.  The agreement of this reference function with the
 generators on accepted boards (a pinned piece can never resolve a check) is a geometric argument
 recorded in DESIGN.md, not mechanised."""
+from ..facts import callee_name as facts_callee
 from .. import sym, lift, setalg, panics
 from . import movegen, zob
 from .movegen import (SELF, STM, NSTM, OWN, OCC, PINNED, CHECKERS, K, AND, OR, NOT, PIECE, FILE, bb, targets)
@@ -58,6 +59,23 @@ def opt_from_discr(v, some_idx=1):
     return None
 
 
+def opt_test(e, v, X):
+    """e (decided as v) tests whether the Option X is Some: -> 'Some' | 'None' | None (not such a test / undecided)"""
+    if e == ("discr", X):
+        return opt_from_discr(v)
+    if e[0] == "bin" and e[1] in ("Eq", "Ne") and ("discr", X) in (e[2], e[3]) and isinstance(v, int):
+        other = e[3] if e[2] == ("discr", X) else e[2]
+        if other[0] == "int" and other[1] in (0, 1):
+            holds = (e[1] == "Eq") == bool(v)
+            return "Some" if (other[1] == 1) == holds else "None"
+    return None
+
+
+def is_opt_test(e, X):
+    return e == ("discr", X) or (e[0] == "bin" and e[1] in ("Eq", "Ne") and ("discr", X) in (e[2], e[3]) and
+                                 (e[3] if e[2] == ("discr", X) else e[2])[0] == "int")
+
+
 def gather(L, p, extra_atoms):
     F = Facts3()
     some_pawn = None
@@ -68,10 +86,8 @@ def gather(L, p, extra_atoms):
             F.b["own_from"] = bool(v)
         elif e[0] == "bin" and e[1] in ("Eq", "Ne") and set((e[2], e[3])) == {K, FROM} and isinstance(v, int):
             F.b["is_king"] = (e[1] == "Eq") == bool(v)
-        elif e == ("bin", "Eq", ("discr", PROMO), ("int", 1, "isize")) and isinstance(v, int):
-            F.promo = "Some" if v else "None"
-        elif e == ("discr", PROMO):
-            st = opt_from_discr(v)
+        elif is_opt_test(e, PROMO):
+            st = opt_test(e, v, PROMO)
             if st:
                 F.promo = st
         elif e == ("discr", zob.payload(PROMO)):
@@ -87,8 +103,8 @@ def gather(L, p, extra_atoms):
             F.nchk = v if isinstance(v, int) and v in (0, 1) else ("many" if not isinstance(v, int) and set(v[1]) >= {0, 1} else None)
         elif e == ("isempty", CHECKERS) and isinstance(v, int):
             F.b["chk_empty"] = bool(v)
-        elif e == ("discr", ON):
-            st = opt_from_discr(v)
+        elif is_opt_test(e, ON):
+            st = opt_test(e, v, ON)
             if st == "None":
                 F.kind = "None"
         elif e == ("discr", ONP):
@@ -253,7 +269,8 @@ def check_is_legal(ctx, f, L):
                             okc = okc and len(cl[2]) == 1
                     ok = okc
             elif residual[0] == "call":
-                ok = ret[0] == "call" and ret[1] == residual[1] and ret[2][1] == MV and ret[2][0][0] == "ptr" and ret[2][0][1] == ("P", "self")
+                # king_is_legal on this board and this move (further arguments are bound and checked in check_king_is_legal)
+                ok = ret[0] == "call" and ret[1] == residual[1] and MV in ret[2] and ret[2][0][0] == "ptr" and ret[2][0][1] == ("P", "self")
             elif residual[0] == "has":
                 ok = ret[0] == "has" and ret[2] == residual[2] and setalg.equivalent(ret[1], residual[1])
             elif residual[0] == "isempty":
@@ -272,7 +289,27 @@ def check_is_legal(ctx, f, L):
 def check_king_is_legal(ctx, f, L):
     body = f.need(B + "::king_is_legal")
     noin = lambda n: False if (n.endswith("::can_castle") or n.endswith("::king_safe_on")) else None
-    paths = sym.SymExec(f, body, inline=noin).run()
+    # parameters other than (self, mv) are bound to what every caller passes (the same function of the board)
+    binding = {}
+    okb = True
+    for k, cb in f.bodies.items():
+        if not cb.crate.startswith("cozy_chess") or not any(facts_callee(t_) == body.key for _, t_ in cb.calls()):
+            continue
+        cps = sym.SymExec(f, cb, inline=lambda n: False if (n == body.key or n.endswith("_legals") or n.endswith("::can_castle") or n.endswith("::king_safe_on")) else None).run()
+        for p in cps:
+            for e in p.events:
+                if e.kind == "call" and e.name == body.key:
+                    for i, a in enumerate(e.args):
+                        pn = body.local_name(i + 1)
+                        if pn in ("self", "mv"):
+                            continue
+                        if pn in binding and binding[pn] != a:
+                            okb = False
+                        binding.setdefault(pn, a)
+    extra = [body.local_name(i) for i in range(1, body.argc + 1) if body.local_name(i) not in ("self", "mv")]
+    ctx.check(okb and set(extra) <= set(binding), "king:caller-binding",
+              "king_is_legal takes parameters %s that its callers do not bind to one function of the board" % extra, loc(body))
+    paths = sym.SymExec(f, body, inline=noin, params=binding or None).run()
     where = loc(body)
     ctx.saw("%s: %d paths" % (body.key, len(paths)))
     rights = ("get", "castle_rights", SELF, STM)
@@ -293,10 +330,8 @@ def check_king_is_legal(ctx, f, L):
                 st["chk_empty"] = bool(v)
             elif e == ("len", CHECKERS) and isinstance(v, int):
                 st["chk_empty"] = (v == 0)
-            elif e == ("bin", "Eq", ("discr", PROMO), ("int", 1, "isize")):
-                st["promo"] = bool(v)
-            elif e == ("discr", PROMO):
-                s_ = opt_from_discr(v)
+            elif is_opt_test(e, PROMO):
+                s_ = opt_test(e, v, PROMO)
                 st["promo"] = None if s_ is None else (s_ == "Some")
             elif e[0] == "has" and e[2] == TO and setalg.equivalent(e[1], step_set):
                 st["step"] = bool(v)
@@ -305,8 +340,8 @@ def check_king_is_legal(ctx, f, L):
                 for w in ("short", "long"):
                     rf = ("field", rights, w)
                     pl = zob.payload(rf)
-                    if e == ("discr", rf):
-                        s_ = opt_from_discr(v)
+                    if is_opt_test(e, rf):
+                        s_ = opt_test(e, v, rf)
                         wing[w]["some"] = None if s_ is None else (s_ == "Some")
                         done = True
                     elif e[0] == "bin" and e[1] == "Eq" and set((e[2], e[3])) == {("sq", pl, back), TO}:
